@@ -708,6 +708,36 @@ pub fn eval_c16(input: &(State, Vec<DVec3>)) -> Eval {
         }
         h.u64((r / t.l * 16.).round() as u64);
     }
+    // the radius is a property of the cell, whatever route reports it: the integrator's convex cells, the conversion of
+    // the integrator, the conversion of the integrator with faces, the single-cell partial build
+    {
+        let conv = guarded(|| Voronoi::from(&integ));
+        let conv_wf = if dim == 3 { Some(guarded(|| Voronoi::from(&integ.clone().with_faces()))) } else { None };
+        for i in 0..n {
+            let mut routes: Vec<(&str, f64)> = vec![];
+            if let Ok(c) = &conv {
+                routes.push(("Voronoi::from(&integrator)", c.cells()[i].safety_radius()));
+            }
+            if let Some(Ok(c)) = &conv_wf {
+                routes.push(("Voronoi::from(&integrator.with_faces())", c.cells()[i].safety_radius()));
+            }
+            if n <= 6 {
+                let mask: Vec<bool> = (0..n).map(|k| k == i).collect();
+                if let Ok(p) = build_voronoi(st, Some(&mask)) {
+                    routes.push(("Voronoi::build_partial(only this cell)", p.cells()[i].safety_radius()));
+                }
+            }
+            for (what, r) in routes {
+                e.transitions += 1;
+                if r.to_bits() != radii[i].to_bits() {
+                    e.issue("radius-depends-on-route", &case, format!("cell {}: safety radius {:e} through {}, {:e} in the direct build", i, r, what, radii[i]), rp());
+                }
+            }
+        }
+        if matches!(conv, Err(_)) || matches!(conv_wf, Some(Err(_))) {
+            e.issue("panic-in-conversion", &case, "Voronoi::from of the integrator (with or without faces) panicked".to_string(), rp());
+        }
+    }
     // edges: add a generator
     let mut cands: Vec<(String, DVec3)> = vec![];
     for (pi, p) in pool.iter().enumerate() {
